@@ -242,9 +242,18 @@ def jobs(seed):
         for oi, (oname, mk) in enumerate(outer_menu(names, types)):
             out.append((2, iname, None, oi))
         for wi, (wname, wrap) in enumerate(wrappers()):
-            for oi, (oname, mk) in enumerate(outer_menu(names, types)):
+            for oi, (oname, mk) in enumerate(outer_menu(*wrapped_shape(wname, names, types))):
                 out.append((3, iname, wi, oi))
     return out
+
+
+def wrapped_shape(wname, names, types):
+    """Column names and types of the wrapper's result, from those of the wrapped query."""
+    if wname in ('wrap-limit', 'wrap-star-reversed'):
+        return list(reversed(names)), list(reversed(types))
+    if wname == 'wrap-star-first':
+        return names[:1], types[:1]
+    return names, types
 
 
 def run_job(job, seed, acc, variant=None):
@@ -263,12 +272,7 @@ def run_job(job, seed, acc, variant=None):
     names, types = [n for n, _ in d], [t for _, t in d]
     if wi is not None:
         wname, wrap = wrappers()[wi]
-        if wname in ('wrap-limit', 'wrap-star-reversed'):
-            names2, types2 = list(reversed(names)), list(reversed(types))
-        elif wname == 'wrap-star-first':
-            names2, types2 = names[:1], types[:1]
-        else:
-            names2, types2 = names, types
+        names2, types2 = wrapped_shape(wname, names, types)
         inner = wrap(inner, names, types)
         names, types = names2, types2
         iname = f'{wname}({iname})'
